@@ -164,6 +164,25 @@ class C09TwoApps(C09):
         return [a, b]
 
 
+class C09Crowded(C09):
+    """the refusal paths: a third side arrives at a mailbox / nameplate two sides already hold; the `crowded` error
+    frame (and every later frame) must also be over committed state"""
+
+    def configure(self, tier):
+        C09.configure(self, tier)
+        X = "X"
+        binds = [[(X, "A")], [(X, "B")], [(X, "C")], [(X, "C"), (X, "A")]]
+        self.driver = Driver(binds, names=("1",), mids=("m",), msgs=(("p", "00", "i1"),),
+                             kinds=("bind", "claim", "release", "open", "add", "close", "list"),
+                             release_forms=("bare",), close_forms=("bare", "unopened"), moods=("happy",),
+                             max_adds=1, max_conns=3 if tier == "quick" else 4)
+        self.depth = 3 if tier == "quick" else 5
+
+    def seeds(self):
+        return [[("cbind", 0, "X", "A"), ("open", 0, "m"), ("cbind", 1, "X", "B"), ("open", 1, "m"), ("cbind", 2, "X", "C")],
+                [("cbind", 0, "X", "A"), ("claim", 0, "1"), ("cbind", 1, "X", "B"), ("claim", 1, "1"), ("cbind", 2, "X", "C")]]
+
+
 RULE = ("BFS over every history of allocate/claim/release/open/add/close/list by 3 sides (so the crowded paths exist) "
         "with sweeps, on file-backed databases, with and without a usage database; the oracle runs inside sendMessage: at "
         "each outbound frame a brand-new sqlite3 connection to each database file must read exactly what the server's own "
@@ -172,6 +191,8 @@ RULE = ("BFS over every history of allocate/claim/release/open/add/close/list by
 
 
 def make_spec(tier, name=None):
+    if name and name.startswith("c09-crowded"):
+        return C09Crowded(tier, usage=name.endswith("-usage"))
     if name and name.startswith("c09-twoapps"):
         return C09TwoApps(tier, usage=name.endswith("-usage"))
     return C09(tier, usage=(name == "c09-usage"))
@@ -182,7 +203,7 @@ def run(pid, tier, seed, args):
     b = 50 if tier == "quick" else 900
     specs = [("c09", make_spec(tier, "c09"), None, b), ("c09-usage", make_spec(tier, "c09-usage"), None, b)]
     specs = [(n, s, s.depth if tier != "quick" or n == "c09" else s.depth - 1, bb) for (n, s, _, bb) in specs]
-    for n in ("c09-twoapps", "c09-twoapps-usage"):
+    for n in ("c09-twoapps", "c09-twoapps-usage", "c09-crowded", "c09-crowded-usage"):
         sp = make_spec(tier, n)
         specs.append((n, sp, sp.depth, b / 2))
     return run_specs(pid, tier, seed, args, specs, rule=RULE,
